@@ -92,9 +92,14 @@ pub fn answer(e: &Expr, q: &Query) -> Obs {
         (Query::Relaxed(n), Expr::F(f)) => of_res(f.eval_relaxed(&symvals(*n))),
         (Query::Relaxed(n), Expr::D(d)) => of_res(d.eval_relaxed(&symvals(*n))),
         (Query::EvalVec(n), Expr::F(f)) => {
+            // the two consuming variants must agree (value and clone counts, or both errors); a disagreement is reported
+            // as an observation no model answer equals
             let vals = symvals(*n);
             reset_clones();
-            match f.eval_vec(vals) { Ok(t) => Obs::TC(t, clones(*n)), Err(_) => Obs::E }
+            let by_iter = match f.eval_iter(symvals(*n).into_iter()) { Ok(t) => Obs::TC(t, clones(*n)), Err(_) => Obs::E };
+            reset_clones();
+            let by_vec = match f.eval_vec(vals) { Ok(t) => Obs::TC(t, clones(*n)), Err(_) => Obs::E };
+            if by_iter != by_vec { Obs::Str(format!("eval_vec gives {} but eval_iter gives {}", pretty_obs(&by_vec), pretty_obs(&by_iter))) } else { by_vec }
         }
         (Query::EvalVec(_), Expr::D(_)) => Obs::Skip,
         (Query::Unparse, Expr::D(d)) => Obs::Str(d.unparse().to_string()),
